@@ -185,10 +185,11 @@ type rlHistory struct {
 	failRet   map[string]*Event
 	waitAfter map[string]*Event // actor -> the failure return its Wait call was entered after
 	reporting map[string]string // actor -> host of the report call in progress ("" once the host's bucket was dropped meanwhile)
+	reportT   map[string]int64
 }
 
 func newRLHistory() *rlHistory {
-	return &rlHistory{hostOf: map[string]string{}, pendingSt: map[string]int{}, releases: map[string][]rlRelease{}, failures: map[string][]rlFailure{}, streak: map[string]int{}, failRet: map[string]*Event{}, waitAfter: map[string]*Event{}, reporting: map[string]string{}}
+	return &rlHistory{hostOf: map[string]string{}, pendingSt: map[string]int{}, releases: map[string][]rlRelease{}, failures: map[string][]rlFailure{}, streak: map[string]int{}, failRet: map[string]*Event{}, waitAfter: map[string]*Event{}, reporting: map[string]string{}, reportT: map[string]int64{}}
 }
 func (h *rlHistory) Name() string { return "rl-history" }
 func (h *rlHistory) OnEvent(k *Kernel, ev *Event) {
@@ -208,13 +209,16 @@ func (h *rlHistory) OnEvent(k *Kernel, ev *Event) {
 	case "comp.report.begin":
 		if len(ev.raw) > 0 {
 			h.reporting[ev.Actor], _ = ev.raw[0].(string)
+			h.reportT[ev.Actor] = ev.T
 		}
 	case "comp.report.end":
 		if len(ev.raw) > 1 {
 			host, _ := ev.raw[0].(string)
 			st, _ := ev.raw[1].(int)
 			if (st == 429 || st == 403 || st == 408 || st == 425) && h.reporting[ev.Actor] == host {
-				h.failRet[host] = ev
+				cp := *ev
+				cp.T = h.reportT[ev.Actor] // the penalty runs from no earlier than the moment the report was issued
+				h.failRet[host] = &cp
 			}
 		}
 		delete(h.reporting, ev.Actor)
